@@ -119,8 +119,6 @@ class Translator:
                 return self.member_name(n)
             if self.is_this(inner[0]):
                 return self.member_name(n)
-        if k == "UnresolvedLookupExpr" and n.get("name") in self.info.methods:
-            return n.get("name")
         return None
 
     def acc(self, f, kind):
@@ -194,6 +192,8 @@ class Translator:
                 else:
                     out += self.expr(a, "R" if op in WRITE_OPS or op in ("==", "!=", "<", ">", "<=", ">=", "+", "-", "*") else "ARG")
             return out
+        if k == "ArraySubscriptExpr":
+            return self.expr(inner[0], "CALL:operator[]") + self.expr(inner[1], "R")
         if k == "UnaryOperator":
             op = n.get("opcode")
             return self.expr(inner[0], "W" if op in ("++", "--") else ("ARG" if op == "&" else use))
